@@ -2573,11 +2573,25 @@ class Convex:
 
         return self.__mul__(other)
 
+    def vanished(self):
+        """
+        The constraint left when the convex term was scaled by zero: only the
+        affine part remains.
+        """
+
+        out = self.affine_out
+        if isinstance(out, (Real, np.ndarray)):
+            out = self.affine_in.reshape(self.affine_in.size)[:1].sum()*0 + out
+
+        return out <= 0
+
     def __le__(self, other):
 
         left = self - other
         if left.sign == -1:
             raise ValueError('Nonconvex constraints.')
+        if left.multiplier == 0:
+            return left.vanished()
 
         return CvxConstr(left.model, left.affine_in, left.affine_out,
                          left.multiplier, left.xtype, params=left.params)
@@ -2587,6 +2601,8 @@ class Convex:
         right = other - self
         if right.sign == -1:
             raise ValueError('Nonconvex constraints.')
+        if right.multiplier == 0:
+            return right.vanished()
 
         return CvxConstr(right.model, right.affine_in, right.affine_out,
                          right.multiplier, right.xtype, params=right.params)
@@ -2875,6 +2891,8 @@ class PerspConvex(Convex):
         left = self - other
         if left.sign == -1:
             raise ValueError('Nonconvex constraints.')
+        if left.multiplier == 0:
+            return left.vanished()
 
         return PCvxConstr(left.model,
                           left.affine_in, left.affine_scale, left.affine_out,
@@ -2885,6 +2903,8 @@ class PerspConvex(Convex):
         right = other - self
         if right.sign == -1:
             raise ValueError('Nonconvex constraints.')
+        if right.multiplier == 0:
+            return right.vanished()
 
         return PCvxConstr(right.model,
                           right.affine_in, right.affine_scale, right.affine_out,
@@ -4661,17 +4681,8 @@ class DecAffine(Affine):
                                 left.fixed, left.ctype)
         elif isinstance(left, DecRoAffine):
             return DecRoConstr(left, 0, left.event_adapt, left.ctype)
-        elif isinstance(left, DecConvex):
-            if left.sign == -1:
-                raise ValueError('Nonconvex constraints.')
-            return DecCvxConstr(left, left.event_adapt)
-        elif isinstance(left, DecPerspConvex):
-            if left.sign == -1:
-                raise ValueError('Nonconvex constraints.')
-            constr = PCvxConstr(left.model,
-                                left.affine_in, left.affine_scale, left.affine_out,
-                                left.multiplier, left.xtype)
-            return DecPCvxConstr(constr, left.event_adapt)
+        elif isinstance(left, (DecConvex, DecPerspConvex)):
+            return left.__le__(0)
         elif isinstance(left, ExpPiecewiseConvex):
             if left.sign == -1:
                 raise ValueError('Nonconvex constraints.')
@@ -4693,17 +4704,8 @@ class DecAffine(Affine):
                                 left.fixed, left.ctype)
         elif isinstance(left, DecRoAffine):
             return DecRoConstr(left, 0, left.event_adapt, left.ctype)
-        elif isinstance(left, DecConvex):
-            if left.sign == -1:
-                raise ValueError('Nonconvex constraints.')
-            return DecCvxConstr(left, left.event_adapt)
-        elif isinstance(left, DecPerspConvex):
-            if left.sign == -1:
-                raise ValueError('Nonconvex constraints.')
-            constr = PCvxConstr(left.model,
-                                left.affine_in, left.affine_scale, left.affine_out,
-                                left.multiplier, left.xtype)
-            return DecPCvxConstr(constr, left.event_adapt)
+        elif isinstance(left, (DecConvex, DecPerspConvex)):
+            return left.__le__(0)
         elif isinstance(left, ExpPiecewiseConvex):
             if left.sign == -1:
                 raise ValueError('Nonconvex constraints.')
@@ -4824,12 +4826,20 @@ class DecConvex(Convex):
     def __le__(self, other):
 
         constr = super().__le__(other)
+        if isinstance(constr, LinConstr):
+            # the convex term was scaled by zero
+            return DecLinConstr(constr.model, constr.linear, constr.const,
+                                constr.sense, self.event_adapt)
 
         return DecCvxConstr(constr, self.event_adapt)
 
     def __ge__(self, other):
 
         constr = super().__ge__(other)
+        if isinstance(constr, LinConstr):
+            # the convex term was scaled by zero
+            return DecLinConstr(constr.model, constr.linear, constr.const,
+                                constr.sense, self.event_adapt)
 
         return DecCvxConstr(constr, self.event_adapt)
 
@@ -5044,12 +5054,20 @@ class DecPerspConvex(PerspConvex):
     def __le__(self, other):
 
         constr = super().__le__(other)
+        if isinstance(constr, LinConstr):
+            # the convex term was scaled by zero
+            return DecLinConstr(constr.model, constr.linear, constr.const,
+                                constr.sense, self.event_adapt)
 
         return DecPCvxConstr(constr, self.event_adapt)
 
     def __ge__(self, other):
 
         constr = super().__ge__(other)
+        if isinstance(constr, LinConstr):
+            # the convex term was scaled by zero
+            return DecLinConstr(constr.model, constr.linear, constr.const,
+                                constr.sense, self.event_adapt)
 
         return DecPCvxConstr(constr, self.event_adapt)
 
